@@ -323,6 +323,191 @@ def build(tier):
                                   if p not in ("critic", "critic_target") and p not in common}),
                    requires=[], frame_fields=False, ensures=["boot_twin(q_value_next_state)"], replay="c08:bellman")
 
+    # single-agent delayed actor-critics: where Q(s,a) and the bootstrap value come from.  DDPG.learn / TD3.learn from the online
+    # critics' forward pass to the end of the no_grad block, on symbolic terms: online critic(s) on (obs, stored action); target critic(s)
+    # on (next obs, clamp_[min,max](target actor(next obs) + clamp_[-c,c](noise))), the smaller twin for TD3
+    class SymT:
+        def __init__(self, term):
+            self.term = term
+
+        def __eq__(self, other):
+            return isinstance(other, SymT) and other.term == self.term
+
+        def __hash__(self):
+            return hash(repr(self.term))
+
+        def __repr__(self):
+            return f"SymT{self.term!r}"
+
+        def binop(self, ex, st, op, other, swapped):
+            a_, b_ = (other, self) if swapped else (self, other)
+            return SymT((type(op).__name__, a_, b_))
+
+        def getattr(self, ex, st, name):
+            if name == "to":
+                return Fn(model=lambda ex, st, a, k: self, name="to")
+            raise Undecided(f"tensor attribute {name}")
+
+    class NetS2:
+        def __init__(self, name):
+            self.name = name
+
+        def call(self, ex, st, args, kwargs):
+            return SymT(("value", self.name, tuple(args)))
+    P.lib["torch.randn_like"] = lambda ex, st, a, k: SymT(("randn-like", a[0]))
+    _old_min = P.lib["torch.min"]
+    P.lib["torch.min"] = lambda ex, st, a, k: SymT(("min", frozenset(a))) if all(isinstance(x, SymT) for x in a) else _old_min(ex, st, a, k)
+    OBS_, ACT_, NXT_ = SymT("obs"), SymT("action"), SymT("next_obs")
+    PN, NC = z3.Real("policy_noise"), z3.Real("noise_clip")
+    MINA, MAXA = SymT("min_action"), SymT("max_action")
+
+    def ac_self(cls, names):
+        def mk(ex, st, label):
+            o = Obj("model." + cls, label="self")
+            o.fields.update({n: NetS2(n) for n in names})
+            o.fields.update(dict(device="cpu", gamma=gamma, min_action=MINA, max_action=MAXA,
+                                 multi_dim_clamp=Fn(model=lambda ex, st, a, k: SymT(("clamp", a[0], a[1], a[2])), name="multi_dim_clamp")))
+            return o
+        return mk
+    smoothed = SymT(("clamp", MINA, MAXA, SymT(("Add", SymT(("value", "actor_target", (NXT_,))),
+                                                      SymT(("clamp", -NC, NC, SymT(("Mult", SymT(("randn-like", ACT_)), PN))))))))
+
+    def same(x, y):
+        return z3.BoolVal(bool(x == y))
+    P.specns.update(dict(same=same, q_online=lambda n: SymT(("value", n, (OBS_, ACT_))), q_boot=lambda n: SymT(("value", n, (NXT_, smoothed))),
+                         q_boot_twin=SymT(("min", frozenset([SymT(("value", "critic_target_1", (NXT_, smoothed))), SymT(("value", "critic_target_2", (NXT_, smoothed)))])))))
+    raw_next = SymT(("value", "actor_target", (NXT_,)))
+    # DDPG as published has no target smoothing: the bootstrap action may be the target actor's action as is, clamped to the action
+    # space, or smoothed with clipped noise (what the code does); anything else (online actor, unclipped noise, other observation) is not
+    ddpg_next_ok = [raw_next, SymT(("clamp", MINA, MAXA, raw_next)), smoothed]
+    P.specns["q_boot_ddpg"] = lambda v: z3.BoolVal(any(v == SymT(("value", "critic_target", (NXT_, x))) for x in ddpg_next_ok))
+    P.contract("agilerl.algorithms.ddpg.DDPG.learn", variant="value-sources",
+               region=region("q_value = self.critic(obs, actions)", "with torch.no_grad()"),
+               params={"self": ac_self("DDPG", ["actor", "actor_target", "critic", "critic_target"]), "experiences": "opaque",
+                       "noise_clip": (lambda ex, st, l: NC), "policy_noise": (lambda ex, st, l: PN), "obs": (lambda ex, st, l: OBS_),
+                       "actions": (lambda ex, st, l: ACT_), "next_obs": (lambda ex, st, l: NXT_), "rewards": "opaque", "dones": "opaque"},
+               requires=[], frame_fields=False, ensures=["same(q_value, q_online('critic'))", "q_boot_ddpg(q_value_next_state)"],
+               replay="c08:bellman")
+    P.contract("agilerl.algorithms.td3.TD3.learn", variant="value-sources",
+               region=region("q_value_1 = self.critic_1(states, actions)", "with torch.no_grad()"),
+               params={"self": ac_self("TD3", ["actor", "actor_target", "critic_1", "critic_2", "critic_target_1", "critic_target_2"]), "experiences": "opaque",
+                       "noise_clip": (lambda ex, st, l: NC), "policy_noise": (lambda ex, st, l: PN), "states": (lambda ex, st, l: OBS_),
+                       "actions": (lambda ex, st, l: ACT_), "next_states": (lambda ex, st, l: NXT_), "rewards": "opaque", "dones": "opaque"},
+               requires=[], frame_fields=False,
+               ensures=["same(q_value_1, q_online('critic_1'))", "same(q_value_2, q_online('critic_2'))", "same(q_value_next_state, q_boot_twin)"],
+               replay="c08:bellman")
+
+    # DQN.update, one generic batch row with NA actions (symbolic): plain DQN bootstraps with max_a Q_target(s', a); double DQN with
+    # Q_target(s', argmax_a Q_online(s', a)); the regressed value is Q_online(s, stored action); the criterion gets exactly (that, y_j)
+    NA = z3.Int("n_actions")
+    QF = z3.Function("q_row", z3.IntSort(), z3.IntSort(), z3.IntSort(), z3.RealSort())      # (network id, input id, action) -> value
+    NETID = {"actor": 1, "actor_target": 2}
+    INID = {"obs": 1, "next_obs": 2}
+    a_q = z3.Int("a!q")
+
+    class IdxV:
+        def __init__(self, i):
+            self.i = i
+
+        def getattr(self, ex, st, name):
+            if name in ("unsqueeze", "long", "squeeze"):
+                return Fn(model=lambda ex, st, a, k: self, name=name)
+            if name == "ndim":
+                return 2
+            raise Undecided(f"index attribute {name}")
+
+    class RowQ:
+        def __init__(self, net, inp):
+            self.net, self.inp = net, inp
+
+        def q(self, i):
+            return QF(self.net, self.inp, i)
+
+        def best(self, st):
+            i = z3.Int(fresh_name("argmax"))
+            st.assume(z3.And(0 <= i, i < NA, z3.ForAll([a_q], z3.Implies(z3.And(0 <= a_q, a_q < NA), self.q(i) >= self.q(a_q)))))
+            return i
+
+        def getattr(self, ex, st, name):
+            if name == "argmax":
+                return Fn(model=lambda ex, st, a, k: IdxV(self.best(st)), name=name)
+            if name == "max":
+                def mx(ex, st, a, k):
+                    i = self.best(st)
+                    return (El(self.q(i)), IdxV(i))
+                return Fn(model=mx, name=name)
+            if name == "gather":
+                def gather(ex, st, a, k):
+                    idx = k.get("index", a[1] if len(a) > 1 else None)
+                    if not isinstance(idx, IdxV):
+                        raise Undecided("gather with a non-index")
+                    return El(self.q(idx.i))
+                return Fn(model=gather, name=name)
+            if name == "detach":
+                return Fn(model=lambda ex, st, a, k: self, name=name)
+            if name == "mean":
+                return Fn(model=lambda ex, st, a, k: El(z3.Real(fresh_name("mean"))), name=name)
+            raise Undecided(f"q-row attribute {name}")
+
+    class QNet:
+        def __init__(self, name):
+            self.name = name
+
+        def call(self, ex, st, args, kwargs):
+            if not isinstance(args[0], str) or args[0] not in INID:
+                raise Undecided("network applied to an unknown input")
+            return RowQ(NETID[self.name], INID[args[0]])
+    crit = []
+    ACT_I = z3.Int("stored_action")
+    P.axioms += [NA >= 1, 0 <= ACT_I, ACT_I < NA]
+    for dbl in (False, True):
+        def dqn_self(ex, st, label, dbl=dbl):
+            crit.clear()
+            o = Obj("model.DQN", label="self")
+            o.fields.update(dict(double=dbl, gamma=gamma, accelerator=None, actor=QNet("actor"), actor_target=QNet("actor_target"),
+                                 criterion=Fn(model=lambda ex, st, a, k: (crit.append((a[0], a[1])), Opaque("loss"))[1], name="criterion"),
+                                 optimizer=Opaque("optimizer")))
+            return o
+
+        def dqn_post(dbl=dbl):
+            if len(crit) != 1 or not all(isinstance(x, El) for x in crit[0]):
+                return z3.BoolVal(False)
+            q_eval, y = crit[0][0].t, crit[0][1].t
+            b = z3.Real("bootstrap")
+            j = z3.Int("j!sel")
+            sel = z3.And(0 <= j, j < NA, z3.ForAll([a_q], z3.Implies(z3.And(0 <= a_q, a_q < NA), QF(1, 2, j) >= QF(1, 2, a_q))))
+            if dbl:          # value of the TARGET net at an action that is greedy for the ONLINE net on the next observation
+                boot = z3.Exists([j], z3.And(sel, y == r + gamma * QF(2, 2, j) * (1 - d)))
+            else:            # the largest target value over the actions
+                boot = z3.Exists([j], z3.And(0 <= j, j < NA, z3.ForAll([a_q], z3.Implies(z3.And(0 <= a_q, a_q < NA), QF(2, 2, j) >= QF(2, 2, a_q))),
+                                             y == r + gamma * QF(2, 2, j) * (1 - d)))
+            return z3.And(q_eval == QF(1, 1, ACT_I), boot, z3.Implies(d == 1, y == r))
+        tag = "double" if dbl else "plain"
+        P.specns["dqn_post_" + tag] = dqn_post
+        P.contract("agilerl.algorithms.dqn.DQN.update", variant="sources-" + tag,
+                   region=region("with torch.no_grad()", "loss: torch.Tensor = self.criterion") if False else region("with torch.no_grad()", "loss"),
+                   params={"self": dqn_self, "obs": (lambda ex, st, l: "obs"), "next_obs": (lambda ex, st, l: "next_obs"),
+                           "actions": (lambda ex, st, l: IdxV(ACT_I)), "rewards": elr, "dones": eld},
+                   requires=[], frame_fields=False, ensures=[f"dqn_post_{tag}()"], replay="c08:bellman")
+
+        # CQN.learn: the same sources (the conservative term is an extra summand of the minimised quantity and is not constrained here)
+        def cqn_self(ex, st, label, mk=dqn_self):
+            o = mk(ex, st, label)
+            o.cls = "model.CQN"
+            return o
+
+        class _LSE:
+            def getattr(self, ex, st, name):
+                if name == "mean":
+                    return Fn(model=lambda ex, st, a, k: El(z3.Real(fresh_name("lse"))), name=name)
+                raise Undecided(f"logsumexp attribute {name}")
+        P.lib["torch.logsumexp"] = lambda ex, st, a, k: _LSE()
+        P.contract("agilerl.algorithms.cqn.CQN.learn", variant="sources-" + tag,
+                   region=region("if self.double", "loss = self.criterion"),
+                   params={"self": cqn_self, "experiences": "opaque", "states": (lambda ex, st, l: "obs"), "next_states": (lambda ex, st, l: "next_obs"),
+                           "actions": (lambda ex, st, l: IdxV(ACT_I)), "rewards": elr, "dones": eld},
+                   requires=[], frame_fields=False, ensures=[f"dqn_post_{tag}()"], replay="c08:bellman")
+
     # ------------------------------------------------------------------ (3) wiring (AST of the real functions)
     def src(qual):
         from pyvc import front
